@@ -1710,13 +1710,19 @@ def check_C03(ctx, deep=False):
 HANDOVER_CONFIGS = [
     # (WALLEYE_VERIF_SCHED, clock ms) — slice = 0.8*(clock-100)/30 ms; hook H6 makes the thread reaching the
     # named point sleep: `accept` = improvement accepted by the clock check, not yet handed over;
-    # `answer` = polling loop left, go not yet answered; `start` = search thread entered
+    # `poll` = before every poll of the channel; `answer` = polling loop left, go not yet answered; `start` = search thread entered
     ("accept=60", 700),             # slice 16: the answer overtakes every improvement (defect D13: its info line came after)
     ("accept=12,answer=45", 700),   # an improvement gets through after the deadline but before the answer: it must be the answer
     ("accept=5", 1600),             # slice 40: several improvements get through, the last one may be overtaken
     ("start=30", 700),              # the search thread starts after the deadline
     ("answer=30", 700),             # the I/O thread is late
     ("accept=25,answer=10", 1000),  # slice 24
+    ("poll=15", 1600),              # slice 40: the I/O thread polls rarely, several boards queue up in the channel
+    ("poll=30,accept=2", 1600),     # ... and the deadline passes while boards are still queued
+    # zero allowance: the answer must be the fall-back move however the first hand-over and the answer interleave
+    ("answer=30", 0),
+    ("start=20", 0),
+    ("start=10,answer=30", 0),
 ]
 
 
@@ -1821,7 +1827,10 @@ def handover_sessions(ctx, n, prop):
                                           % (pl, cfg, where["go"], idx + 1), "M": " / ".join(o["ref"][:m][-3:]), "I": " / ".join(infos[:m][-3:])})
                     continue
                 expect = ("bestmove " + pv0(infos[-1])) if infos else o["fb"]
-                if best != expect:
+                if best != expect and prop == "C16" and clock == 0:
+                    # C16: under a zero allowance the bestmove is that of a fresh engine, whatever the schedule
+                    ctx.fail("zero-allowance-answer-depends-on-schedule", bestmove=best, fresh_engine=expect, **where)
+                elif best != expect:
                     # not demanded by the property itself: a disagreement with the hand-over MODEL
                     # (Model/Handover: the answer takes what is left in the channel) = broken correspondence
                     ctx.t2diff({"op": "handover session: %s | WALLEYE_VERIF_SCHED=%s | %s (go #%d): bestmove vs last improvement shown (%s)"
@@ -2023,6 +2032,9 @@ def check_C08(ctx, deep=False):
         if served is False:
             ctx.fail("responsiveness", status="not-served-afterwards", position=pos)
     run_traced(ctx, ["terminal", "gogo"], 6 if q else 40)
+    # "however the search and I/O threads are scheduled": forced interleavings of the hand-over (hook H6);
+    # every go answered, readyok afterwards, a second position+go served
+    handover_sessions(ctx, 2 if q else 20, "C08")
     # in-process: a move is sent iff the root has one, whatever the expiry
     tops = []
     for t in TERMINAL:
